@@ -621,6 +621,25 @@ func normalizeComparisons(p *packages.Package) {
 			switch {
 			case isConst(be.X) && !isConst(be.Y):
 				be.X, be.Y, be.Op = be.Y, be.X, mirror
+				fallthrough
+			case !isConst(be.X) && isConst(be.Y) && (be.Op == token.LSS || be.Op == token.GEQ):
+				// an integer compared with the constant 1: n < 1 is n <= 0, n >= 1 is n > 0
+				if tv, ok := p.TypesInfo.Types[be.Y]; ok && tv.Value != nil && tv.Value.Kind() == constant.Int && (be.Op == token.LSS || be.Op == token.GEQ) {
+					if v, exact := constant.Int64Val(tv.Value); exact && v == 1 {
+						if xt, ok := p.TypesInfo.Types[be.X]; ok && xt.Type != nil {
+							if bt, isB := xt.Type.Underlying().(*types.Basic); isB && bt.Info()&types.IsInteger != 0 {
+								zero := &ast.BasicLit{ValuePos: be.Y.Pos(), Kind: token.INT, Value: "0"}
+								p.TypesInfo.Types[zero] = types.TypeAndValue{Type: tv.Type, Value: constant.MakeInt64(0)}
+								be.Y = zero
+								if be.Op == token.LSS {
+									be.Op = token.LEQ
+								} else {
+									be.Op = token.GTR
+								}
+							}
+						}
+					}
+				}
 			case !isConst(be.X) && !isConst(be.Y) && (be.Op == token.GTR || be.Op == token.GEQ):
 				// two variable operands: one spelling, with < or <=
 				be.X, be.Y, be.Op = be.Y, be.X, mirror
